@@ -230,7 +230,9 @@ def TRIM(
     https://support.office.com/en-us/article/
         trim-function-410388fa-c5df-49c6-b16c-9e5630b479f9
     """
-    return str(text).strip()
+    # Leading, trailing and repeated inner spaces go; only the space
+    # character (not tabs or line breaks) is affected.
+    return ' '.join(word for word in str(text).split(' ') if word)
 
 
 @xl.register()
